@@ -26,6 +26,8 @@ ASSUMPTIONS = [
     "the formula language of the differential run is coq/Model/GraphExpr.v plus two faults: an unknown "
     "function (NameError after the first k precedents) and a plugin function returning 7 or raising",
     "iterative mode, CSE arrays and cycles are not in the model: oracle-only",
+    "ExcelCompiler.recalculate() is not in the model (coq/Model/Fail.v has evaluate / set_value / build only): the "
+    "recalculate stream is oracle-only",
 ]
 
 PLUGIN = '''"""fault-injection plugin for the C09 check"""
@@ -373,6 +375,7 @@ def run(ctx):
         except Exception as exc:      # noqa: BLE001
             ctx.violation(case, f"bare internal exception {type(exc).__name__}")
     name_sweep(ctx, ExcelCompiler, dotted, plain)
+    recalculate_stream(ctx, ExcelCompiler, plugin)
     correspondence(ctx, ExcelCompiler, plugin, dotted, plain)
     sys.path.remove(ctx.work)
     shutil.rmtree(ctx.work, ignore_errors=True)
@@ -534,6 +537,185 @@ def name_sweep(ctx, ExcelCompiler, dotted, plain):
                         ctx.violation(dict(wcase, target=f'{wbgen.SHEET}!{t}'),
                                       "after the repair and a further write a dependant differs from a fresh model "
                                       "with the same constants", impl=r, expected=want)
+
+
+# ------------------------------------------------------------------ recalculate()
+def recalculate_stream(ctx, ExcelCompiler, plugin):
+    """Oracle-only (Model/Fail.v has no recalculate): ExcelCompiler.recalculate() - "recalculate all of the known
+    cells": every formula cell and every range node of the cell map is reset and evaluated again - in histories with
+    and without a failure.  C01-generator workbooks (often extended by a reader of several ranges); 1-2 formula cells
+    become calls of the plugin function BOOMID (returns 7 until armed).
+      a. every node (cells and range nodes) is evaluated: the plugin works; values = fresh model (the plugin cells
+         hold 7);
+      b. failure-free: 0-2 inputs are written, recalculate() must return, every node = fresh model with the
+         current inputs;
+      c. one plugin cell is armed (raises always, or from its next call on, or from the call after - then the
+         first recalculate() still succeeds), recalculate() must raise a pycel error, never a bare exception;
+      d. the failing cell and every dependant - plain readers, readers through a range, the range nodes
+         themselves - evaluated twice: a pycel error each time, never a value (a range keeping the tuple from
+         before the failure would hand SUM(A1:A3) the stale numbers); every node that does not depend on the failing
+         cell = fresh model; a second recalculate() raises again;
+      e. repair - the plugin is disarmed and recalculate() called, or the failing cell is overwritten with a
+         constant -: every node = fresh model."""
+    from pycel.excelutil import PyCelException
+    rng = ctx.rng
+    ctx.extra['rule'] += (
+        "; recalculate stream (oracle only): C01-generator workbooks, 1-2 formula cells calling a plugin function; all "
+        "nodes evaluated, writes + recalculate() without failure (= fresh model), then a plugin cell starts to raise "
+        "(at once / from its k-th call on) and recalculate() is called: it must raise a pycel error, the failing cell and "
+        "all its dependants incl. readers through ranges and the range nodes must fail on every later evaluate, "
+        "unrelated nodes = fresh model, repair by disarming + recalculate() or by a constant = fresh model")
+    stats = ctx.extra.setdefault('recalculate', dict(histories=0, failed_recalculate=0, range_readers_checked=0))
+
+    def fresh_all(wb, inputs, consts):
+        owb = wb.to_openpyxl(inputs)
+        for i, c in consts.items():
+            owb[wbgen.SHEET].cell(row=wb.nodes[i]['row'], column=1, value=c)
+        c = ExcelCompiler(excel=owb)
+        return {i: canon(c.evaluate(n['addr'])) for i, n in enumerate(wb.nodes)}
+
+    def check_values(case, comp, wb, want, nodes, phase):
+        for i in nodes:
+            tcase = dict(case, phase=phase, target=wb.nodes[i]['addr'])
+            try:
+                r = canon(comp.evaluate(wb.nodes[i]['addr']))
+            except Exception as exc:      # noqa: BLE001
+                ctx.violation(tcase, f"{phase}: evaluate raises {type(exc).__name__}: {exc}"[:200])
+                continue
+            if r != want[i]:
+                ctx.violation(tcase, f"{phase}: a value differs from a fresh model with the current inputs",
+                              impl=r, expected=want[i])
+
+    for k in range(ctx.n(110, 1100)):
+        wb = wbgen.gen_workbook(rng, ncells=rng.randrange(5, 10), pool=wbgen.CLEAN_POOL + [0, 1])
+        if not wb.formulas():
+            continue
+        forced = extend(wb, rng)
+        for f in forced:
+            wb.nodes[f]['text'] = '=SUM(' + ','.join(wb.nodes[d]['addr'].split('!')[1] for d in wb.nodes[f]['deps']) + ')'
+        # the plugin cells: prefer cells that are members of a range somebody reads
+        in_range = [i for i in wb.formulas() if any(n['kind'] == 'range' and i in n['deps'] and
+                                                    any(j in x['deps'] for x in wb.nodes) for j, n in enumerate(wb.nodes))]
+        cand = [i for i in wb.formulas() if i not in forced]
+        if not cand:
+            continue
+        chosen = [rng.choice([i for i in cand if i in in_range] or cand)]
+        if len(cand) > 1 and rng.random() < 0.4:
+            chosen.append(rng.choice([i for i in cand if i != chosen[0]]))
+        for fcell in chosen:
+            refs = [f'A{wb.nodes[d]["row"]}' if wb.nodes[d]['kind'] != 'range' else wb.nodes[d]['addr'].split('!')[1]
+                    for d in wb.nodes[fcell]['deps']]
+            wb.nodes[fcell]['text'] = f'=BOOMID({fcell}{"".join("," + r for r in refs)})'
+        desc = [(x['addr'], x.get('value'), x.get('text')) for x in wb.nodes]
+        plugin.FAILING.clear()
+        plugin.IDCALLS.clear()
+        plugin.FAIL_FROM.clear()
+        consts = {i: 7 for i in chosen}
+        inputs = {i: wb.nodes[i]['value'] for i in wb.inputs()}
+        comp = ExcelCompiler(excel=wb.to_openpyxl(), plugins=('verif_c09_plugin',))
+        fcell = chosen[0]
+        faddr = wb.nodes[fcell]['addr']
+        arm = rng.choice(['always', 'next-call', 'call-after-next'])
+        case = dict(call='recalculate', workbook=desc, args=[faddr, arm], mode='plain')
+        ctx.count(('recalc', k), kind='recalculate:' + arm, sample=case)
+        stats['histories'] += 1
+        everything = list(range(len(wb.nodes)))
+        order = list(everything)
+        rng.shuffle(order)
+        # ---- a. first calculation
+        check_values(case, comp, wb, fresh_all(wb, inputs, consts), order, 'first calculation')
+        # ---- b. failure-free recalculate()
+        for rounds in range(rng.randrange(0, 3)):
+            for a in rng.sample(wb.inputs(), min(len(wb.inputs()), rng.randrange(0, 3))):
+                v = rng.choice([x for x in wbgen.CLEAN_POOL if x != inputs[a] or type(x) is not type(inputs[a])])
+                comp.set_value(wb.nodes[a]['addr'], v)
+                inputs[a] = v
+            try:
+                comp.recalculate()
+            except Exception as exc:      # noqa: BLE001
+                ctx.violation(dict(case, phase='recalculate-without-failure'),
+                              f"recalculate() raises {type(exc).__name__} although nothing fails: {exc}"[:200])
+                break
+            rng.shuffle(order)
+            check_values(case, comp, wb, fresh_all(wb, inputs, consts), order, 'after recalculate() without failure')
+        # ---- c. the plugin starts to raise
+        calls = plugin.IDCALLS.get(fcell, 0)
+        if arm == 'always':
+            plugin.FAILING.add(fcell)
+        else:
+            plugin.FAIL_FROM[fcell] = calls + (1 if arm == 'next-call' else 2)
+        if arm == 'call-after-next':
+            try:
+                comp.recalculate()
+            except Exception as exc:      # noqa: BLE001
+                ctx.violation(dict(case, phase='recalculate-without-failure'),
+                              f"recalculate() raises {type(exc).__name__} although nothing fails yet: {exc}"[:200])
+            if plugin.IDCALLS.get(fcell, 0) != calls + 1:
+                ctx.violation(dict(case, phase='recalculate-recomputes'),
+                              "recalculate() did not run the formula of a known cell exactly once",
+                              impl=plugin.IDCALLS.get(fcell, 0) - calls, expected=1)
+        below = wb.descendants(fcell)
+        through_range = sorted(i for i in below if wb.nodes[i]['kind'] == 'formula' and
+                               any(wb.nodes[d]['kind'] == 'range' and (d in below) for d in wb.nodes[i]['deps']))
+        for attempt in (1, 2):
+            try:
+                comp.recalculate()
+                ctx.violation(dict(case, phase=f'recalculate-with-failure-{attempt}'),
+                              "recalculate() returns although a known cell fails")
+            except PyCelException:
+                stats['failed_recalculate'] += 1
+            except RecursionError:
+                pass
+            except Exception as exc:      # noqa: BLE001
+                ctx.violation(dict(case, phase=f'recalculate-with-failure-{attempt}'),
+                              f"recalculate() raises the bare internal exception {type(exc).__name__}: {exc}"[:200])
+            # ---- d. the failing cell, its dependants (ranges and their readers included): always a pycel error
+            targets = [fcell] + sorted(below)
+            rng.shuffle(targets)
+            for target in targets + targets:
+                tcase = dict(case, phase=f'after-failed-recalculate-{attempt}', target=wb.nodes[target]['addr'])
+                if target in through_range:
+                    stats['range_readers_checked'] += 1
+                try:
+                    r = comp.evaluate(wb.nodes[target]['addr'])
+                    ctx.violation(tcase, "after a failed recalculate() a node that depends on the failing cell returns a "
+                                         "value instead of failing", impl=canon(r))
+                except PyCelException:
+                    pass
+                except RecursionError:
+                    pass
+                except Exception as exc:      # noqa: BLE001
+                    ctx.violation(tcase, f"bare internal exception {type(exc).__name__}: {exc}"[:200])
+            want = fresh_all(wb, inputs, consts)
+            unrelated = [i for i in everything if i != fcell and i not in below]
+            check_values(case, comp, wb, want, unrelated, f'unrelated after failed recalculate() {attempt}')
+            if rng.random() < 0.5:
+                break
+        # ---- e. repair
+        # (a recalculate() after the repair by a constant would run the formula again - the constant does not detach
+        # it: known finding C09-repair-undone-by-upstream-write - so that combination is not part of the stream)
+        how = rng.choice(['disarm+recalculate', 'constant'])
+        if how == 'disarm+recalculate':
+            plugin.FAILING.discard(fcell)
+            plugin.FAIL_FROM.pop(fcell, None)
+        else:
+            consts[fcell] = rng.choice([5, 0, 'fixed', 12])
+            try:
+                comp.set_value(faddr, consts[fcell])
+            except Exception as exc:      # noqa: BLE001
+                ctx.violation(dict(case, phase='repair', how=how), f"set_value on the failing cell raises {type(exc).__name__}")
+                continue
+        if how != 'constant':
+            try:
+                comp.recalculate()
+            except Exception as exc:      # noqa: BLE001
+                ctx.violation(dict(case, phase='repair', how=how),
+                              f"recalculate() after the repair raises {type(exc).__name__}: {exc}"[:200])
+        rng.shuffle(order)
+        check_values(dict(case, how=how), comp, wb, fresh_all(wb, inputs, consts), order, 'after the repair')
+    plugin.FAILING.clear()
+    plugin.IDCALLS.clear()
+    plugin.FAIL_FROM.clear()
 
 
 # ------------------------------------------------------------------ correspondence with coq/Model/Fail.v
